@@ -22,6 +22,7 @@ func C12(r *core.Run) {
 	nameAffinity(r, convRel, "fields.go")
 	provEnumNumbers(r)
 	enumNumberingAgrees(r)
+	valueNamePrefixGuard(r)
 	requiredPropagation(r)
 	ruleConstants(r)
 	arrayItems(r)
